@@ -296,7 +296,19 @@ func c05Judge(c c05Case, res opResult) string {
 	v := judge(ref)
 	if v == "" {
 		if res.err != nil {
-			ev.Refused("C05")
+			// "A configuration the library does not implement is refused": the only configurations
+			// (with group 1) the library refuses are those with a kernel extent of 1 on some axis
+			// (its slicing drops that axis). Refusing anything else takes back the first sentence.
+			unit := false
+			for _, k := range g.k {
+				if k == 1 {
+					unit = true
+				}
+			}
+			if !unit {
+				return "a configuration the library implements was refused: " + res.err.Error()
+			}
+			ev.Refused("C05 kernel extent 1: " + refusalReason(res.err))
 		}
 		return ""
 	}
